@@ -3,23 +3,17 @@
     [Q]: the rounding facts of the model give enclosures of every intermediate float
     (lib/FArithFacts.v), after which [lra] / [lia] finish. *)
 From Coq Require Import ZArith QArith Qround Qabs Lqa Lia List Bool.
-From TI Require Import lib.FArith lib.FArithFacts model.Sizing.
+From TI Require Import lib.FArith lib.FArithFacts model.Sizing model.SizingSpec.
 Open Scope Q_scope.
 
 Definition L (n : positive) : Q := 1 - (Zpos n # 2 ^ 52).
 Definition H (n : positive) : Q := 1 + (Zpos n # 2 ^ 52).
 Definition delta : Q := 1 # 1024.
-Definition two (k : Z) : Q := inject_Z (2 ^ k).          (* 2^k,  k >= 0 *)
-Definition itwo (k : positive) : Q := 1 # (2 ^ k).       (* 2^-k *)
-Notation QZ := inject_Z.
 
 Ltac side := vm_compute; reflexivity.
 
 (** ------------------------------------------------------------------------------
     pixels -> cells: "within one cell, never below 1" *)
-Definition nearP (obs : Z) (x : Q) : Prop :=
-  (x < 1 -> obs = 1%Z) /\ (1 <= x -> QZ obs - x < 1 /\ x - QZ obs < 1).
-
 Lemma or1_pos : forall z, (0 <= z)%Z -> (0 < or1 z)%Z.
 Proof. intros z Hz. unfold or1. destruct (z =? 0)%Z eqn:E; [lia|]. apply Z.eqb_neq in E. lia. Qed.
 Lemma or1_id : forall z, (0 < z)%Z -> or1 z = z.
@@ -104,8 +98,11 @@ Local Notation fin := (finite SM).
 Local Notation v := (val SM).
 Local Notation u := ulp_rel.
 Local Notation Ap := (Ap SM).
-
-Definition dim30 (z : Z) : Prop := (1 <= z < 2 ^ 30)%Z.
+Local Notation HX := (HX SM).
+Local Notation WX := (WX SM).
+Local Notation ratio_ok := (ratio_ok SM).
+Local Notation Dom0 := (Dom0 SM).
+Local Notation Dom := (Dom SM).
 
 Lemma dim30_Q : forall z, dim30 z -> 1 <= QZ z /\ QZ z <= two 30 /\ itwo 30 <= QZ z.
 Proof.
@@ -227,11 +224,6 @@ Proof. intros pr (Fp & Lp & Hp). constructor; auto; lra. Qed.
 
 Lemma PR_pos : forall pr, PR pr -> 0 < v pr.
 Proof. intros pr (Fp & Lp & Hp). apply Qlt_le_trans with (itwo 32); [qdec|assumption]. Qed.
-
-(** exact aspect-preserving pixel values: the height that goes with width [w], the
-    width that goes with height [h] *)
-Definition HX (pr : F FA) (ow oh w : Z) : Q := QZ w * QZ oh / QZ ow * v pr.
-Definition WX (pr : F FA) (ow oh h : Z) : Q := QZ h * QZ ow / (QZ oh * v pr).
 
 (** common.py:1784-1813: FIT in pixels stays within the frame, keeps one axis at the
     frame dimension exactly, and the other within 1/2 + delta of the exact value *)
@@ -382,31 +374,15 @@ Qed.
 
 (** ------------------------------------------------------------------------------
     the environment: cell size, cell ratio, pixels per cell *)
-Definition cwp (fam : family) (e : env FA) : Z :=
-  match fam with Text => 1 | Graphics => fst (cell_or_default e) end.
-Definition chp (fam : family) (e : env FA) : Z :=
-  match fam with Text => 2 | Graphics => snd (cell_or_default e) end.
-
-Definition cell_ok (e : env FA) : Prop :=
-  match e_cell e with
-  | Some (cw, ch) => (1 <= cw <= 2 ^ 12 /\ 1 <= ch <= 2 ^ 12)%Z
-  | None => True
-  end.
-Definition ratio_ok (e : env FA) : Prop :=
-  match e_ratio e with
-  | Some r => fin r /\ itwo 30 <= v r /\ v r <= two 30
-  | None => True
-  end.
-
 Lemma cell_default_ok : forall (e : env FA), cell_ok e ->
   (1 <= fst (cell_or_default e) <= 2 ^ 12 /\ 1 <= snd (cell_or_default e) <= 2 ^ 12)%Z.
 Proof.
   intros e H. unfold cell_ok, cell_or_default in *. destruct (e_cell e) as [[cw ch]|]; cbn; lia.
 Qed.
 
-Lemma cwp_ok : forall fam e, cell_ok e -> (1 <= cwp fam e <= 2 ^ 12)%Z.
+Lemma cwp_ok : forall fam (e : env FA), cell_ok e -> (1 <= cwp fam e <= 2 ^ 12)%Z.
 Proof. intros fam e H. destruct (cell_default_ok e H). destruct fam; cbn; lia. Qed.
-Lemma chp_ok : forall fam e, cell_ok e -> (1 <= chp fam e <= 2 ^ 12)%Z.
+Lemma chp_ok : forall fam (e : env FA), cell_ok e -> (1 <= chp fam e <= 2 ^ 12)%Z.
 Proof. intros fam e H. destruct (cell_default_ok e H). destruct fam; cbn; lia. Qed.
 
 Lemma Ap_small : forall z, (1 <= z <= 2 ^ 12)%Z -> Ap (ofZ z) (QZ z) 1 1 1 (two 12).
@@ -546,25 +522,6 @@ Qed.
 
 (** ------------------------------------------------------------------------------
     the theorems about [valid_size] *)
-Definition columns (e : env FA) (frame : Z * Z) : Z := resolve (fst frame) (e_cols e).
-Definition lines (e : env FA) (frame : Z * Z) : Z := resolve (snd frame) (e_lines e).
-Definition fwpx (fam : family) (e : env FA) (frame : Z * Z) : Z :=
-  px_of_cols fam e (columns e frame).
-Definition fhpx (fam : family) (e : env FA) (frame : Z * Z) : Z :=
-  px_of_lines fam e (lines e frame).
-
-(** the domain of the theorems: source dimensions in [1, 2^30), cell size in
-    [1, 2^12], a fixed cell ratio in [2^-30, 2^30] ... *)
-Record Dom0 (e : env FA) (ow oh : Z) : Prop := {
-  d_ow : dim30 ow; d_oh : dim30 oh; d_cell : cell_ok e; d_ratio : ratio_ok e
-}.
-(** ... and a frame whose pixel dimensions are below 2^30 *)
-Record Dom (fam : family) (e : env FA) (ow oh : Z) (frame : Z * Z) : Prop := {
-  d_0 : Dom0 e ow oh;
-  d_fw : dim30 (fwpx fam e frame);
-  d_fh : dim30 (fhpx fam e frame)
-}.
-
 Lemma resolve_pos : forall fd td, (1 <= resolve fd td)%Z.
 Proof. intros. unfold resolve. destruct (0 <? fd)%Z eqn:E; [apply Z.ltb_lt in E|]; lia. Qed.
 
@@ -579,8 +536,6 @@ Proof.
   - apply cols_roundtrip. assumption.
   - apply lines_roundtrip; try assumption; [lia|]. destruct Hfh. lia.
 Qed.
-
-Definition pr_of (fam : family) (e : env FA) : F FA := pixel_ratio fam e.
 
 (** FIT (common.py:1784-1817) *)
 Lemma valid_size_fit : forall fam (e : env FA) ow oh frame,
@@ -803,13 +758,6 @@ Proof.
   apply cols_of_px_near; try assumption; lia.
 Qed.
 
-(** where the Size member is passed (width or height), and [None, None] = FIT *)
-Definition auto_mode (w h : dim) : option smode :=
-  match w, h with
-  | DSize s, DNone | DNone, DSize s => Some s
-  | DNone, DNone => Some FIT
-  | _, _ => None
-  end.
 Lemma valid_size_mode : forall fam (e : env FA) ow oh w h m frame, auto_mode w h = Some m ->
   valid_size fam e ow oh w h frame = valid_size fam e ow oh (DSize m) DNone frame.
 Proof.
